@@ -132,6 +132,58 @@ def write_replay(ctx, v, idx):
     return p
 
 
+CTX_FIELDS = ("evaluations", "nontrivial_keys", "samples", "rule", "violations", "l2", "extra", "dist", "trusted",
+              "assumptions", "exhaustive", "disagreements_checked")
+
+
+def run_isolated(ctx, mod, replay_data):
+    """Run the property-specific part in a forked child so that a hard crash of the implementation (segfault, abort
+    from a C++ assertion) inside an in-process driver cannot take the check down without a verdict. The child's
+    bookkeeping is handed back through a pickle file; a child that dies is reported as a broken correspondence."""
+    import pickle
+    import tempfile
+    if os.environ.get("WHVERIF_NO_FORK"):
+        (mod.replay(ctx, replay_data) if replay_data is not None else mod.run(ctx))
+        return
+    fd, path = tempfile.mkstemp(prefix="whverif-ctx-", dir="/var/tmp")
+    os.close(fd)
+    sys.stdout.flush()
+    pid = os.fork()
+    if pid == 0:
+        code = 0
+        try:
+            try:
+                (mod.replay(ctx, replay_data) if replay_data is not None else mod.run(ctx))
+                err = None
+            except BaseException:
+                err = traceback.format_exc()
+            with open(path, "wb") as f:
+                pickle.dump(({k: getattr(ctx, k) for k in CTX_FIELDS}, err), f)
+        except BaseException:
+            code = 3
+        finally:
+            sys.stdout.flush()
+            os._exit(code)
+    _, status = os.waitpid(pid, 0)
+    try:
+        state, err = pickle.load(open(path, "rb"))
+        for k, v in state.items():
+            setattr(ctx, k, v)
+    except Exception:
+        state, err = None, None
+    finally:
+        try:
+            os.unlink(path)
+        except OSError:
+            pass
+    if state is None:
+        why = (f"killed by signal {os.WTERMSIG(status)}" if os.WIFSIGNALED(status) else f"exit status {os.WEXITSTATUS(status)}")
+        ctx.l2_disagreement("the check process died while driving the implementation (" + why + ")",
+                            [{"status": why}])
+    elif err:
+        raise RuntimeError("check crashed in its worker process:\n" + err)
+
+
 def run_check(pid, tier, seed, replay=None):
     ctx = Ctx(pid, tier, seed)
     mod = importlib.import_module(f"harness.props.{pid}")
@@ -168,14 +220,17 @@ def run_check(pid, tier, seed, replay=None):
         ctx.impl = build.build_impl()
         build.activate(ctx.impl)
         # 3-5. property specific
-        if replay:
-            data = json.load(open(replay))
-            mod.replay(ctx, data["replay"])
-        else:
-            mod.run(ctx)
-    except Exception as e:  # a crashing check is a broken check: report loudly, exit 2
+        data = json.load(open(replay))["replay"] if replay else None
+        run_isolated(ctx, mod, data)
+    except Exception as e:
+        # The check does not crash on the tree it was developed against; if it crashes now, the correspondence
+        # between model and code can no longer be evaluated (typically: the implementation raised or produced output
+        # the driver cannot interpret). Reported as a broken correspondence unless a concrete violation was recorded.
         fatal = traceback.format_exc()
         print(fatal, flush=True)
+        if ctx.impl is not None:
+            ctx.l2_disagreement("check crashed while evaluating the correspondence: " + repr(e)[:200],
+                                [{"traceback": fatal[-3000:]}])
 
     known = load_known()["findings"]
 
@@ -209,10 +264,10 @@ def run_check(pid, tier, seed, replay=None):
         print(f"KNOWN-FINDING: property={pid} {h['what']}", flush=True)
     write_evidence(ctx, len(unlisted))
     if fatal and not unlisted:
-        print(f"[{pid}] check crashed (see traceback); this is a broken check, not a verdict", flush=True)
+        print(f"[{pid}] check crashed before the implementation was built (see traceback); this is a broken check, not a verdict", flush=True)
         return 2
     if fatal:
-        print(f"[{pid}] check crashed after recording violations (see traceback); reporting what was found", flush=True)
+        print(f"[{pid}] check crashed (see traceback); reporting what was found up to that point", flush=True)
     per_sig = {}
     unlisted_sorted = sorted(unlisted, key=lambda v: len(json.dumps(v["replay"], default=str)))
     for i, v in enumerate(unlisted_sorted):
